@@ -535,17 +535,13 @@ func (e *Exec) evalClauseAt(fr *Frame, cl Clause, st *State, results []Val) *Ter
 	}
 	// candidate witnesses for existentials: current values of the function's integer locals
 	savedW := e.witness
-	e.witness = nil
-	for a, av := range fr.allocs {
-		if av.P == nil || av.P.kind != pCell || !isInteger(deref(a.Type())) {
-			continue
-		}
-		if t, ok := st.cells[av.P.cell]; ok && !t.bound && len(e.witness) < 8 {
-			e.witness = append(e.witness, t)
-		}
+	e.witness = e.witnessFor(fr, st)
+	oldSt := fr.entry
+	if fr.oldOverride != nil {
+		oldSt = fr.oldOverride
+		oldArgs = args // locals and parameters keep their current values; only the heap is the old one
 	}
-	sort.Slice(e.witness, func(i, j int) bool { return e.witness[i].id < e.witness[j].id })
-	v := e.evalPure(cl.Wrapper, args, oldArgs, nil, st, fr.entry)
+	v := e.evalPure(cl.Wrapper, args, oldArgs, nil, st, oldSt)
 	e.witness = savedW
 	if v.T == nil {
 		e.fail("clause %s did not evaluate to a term", cl.Label)
@@ -554,6 +550,27 @@ func (e *Exec) evalClauseAt(fr *Frame, cl Clause, st *State, results []Val) *Ter
 }
 
 // evalClauseCall evaluates a callee's clause at a call site.
+// witnessFor: instantiation candidates for quantifiers = current values of the frame's integer locals
+// (deterministic: sorted by term id, at most 8).
+func (e *Exec) witnessFor(fr *Frame, st *State) []*Term {
+	var ws []*Term
+	seen := map[int]bool{}
+	for a, av := range fr.allocs {
+		if av.P == nil || av.P.kind != pCell || !isInteger(deref(a.Type())) {
+			continue
+		}
+		if t, ok := st.cells[av.P.cell]; ok && !t.bound && !seen[t.id] && t.kind != kLit {
+			seen[t.id] = true
+			ws = append(ws, t)
+		}
+	}
+	sort.Slice(ws, func(i, j int) bool { return ws[i].id < ws[j].id })
+	if len(ws) > 8 {
+		ws = ws[len(ws)-8:]
+	}
+	return ws
+}
+
 func (e *Exec) evalClauseCall(cl Clause, args []Val, results []Val, st, oldSt *State) *Term {
 	var as []Val
 	for _, p := range cl.Params {
@@ -595,6 +612,9 @@ func (e *Exec) callByContract(fr *Frame, st *State, ins ssa.Instruction, sp *Fun
 			e.fail("call of contracted %s with a static pointer argument (local whose address is taken must be heap-allocated)", callee)
 		}
 	}
+	savedW := e.witness
+	e.witness = e.witnessFor(fr, st)
+	defer func() { e.witness = savedW }()
 	for _, cl := range sp.Requires {
 		t := e.evalClauseCall(cl, args, nil, st, st)
 		e.oblige(st, "pre", fmt.Sprintf("pre:%d:%s:%s", k, short, cl.Label), t, ins.Pos())
@@ -695,14 +715,29 @@ func (e *Exec) intrinsic(fr *Frame, st *State, ins ssa.Instruction, callee *ssa.
 			e.fail("quantifier body must be a function literal")
 		}
 		pt := clo.fn.Signature.Params().At(0).Type()
-		bv := c.BoundVar(clo.fn.Params[0].Name(), e.tm.Sort(pt))
+		bv := c.BoundVarNamed(clo.fn.String()+"."+clo.fn.Params[0].Name(), e.tm.Sort(pt))
 		body := e.callClosure(clo, []Val{{T: bv}}, st, fr).T
 		guard := e.tm.RangeFact(bv, pt)
 		if lo != nil {
 			guard = c.And(c.Le(lo, bv), c.Lt(bv, hi))
 		}
 		if forall {
-			return Val{T: c.Forall([]*Term{bv}, c.Implies(guard, body))}
+			fa := c.Forall([]*Term{bv}, c.Implies(guard, body))
+			// instance hints (implied by the quantified formula, so the conjunction is equivalent)
+			if lo != nil && len(e.witness) > 0 && e.noWitness == 0 {
+				parts := []*Term{fa}
+				e.noWitness++
+				for _, w := range e.witness {
+					if w.sort != bv.sort || w.bound {
+						continue
+					}
+					b := e.callClosure(clo, []Val{{T: w}}, st, fr).T
+					parts = append(parts, c.Implies(c.And(c.Le(lo, w), c.Lt(w, hi)), b))
+				}
+				e.noWitness--
+				return Val{T: c.And(parts...)}
+			}
+			return Val{T: fa}
 		}
 		ex := c.Exists([]*Term{bv}, c.And(guard, body))
 		// witness hints: instances of the body at integer locals of the verified function. Each disjunct
